@@ -242,7 +242,17 @@ def r5(c):
         s = q.sem(b, o)
         return s.kind == 'call' and s.cs.is_(RB + '::len')
     # 1 + length <= MAX_ADU_LENGTH
-    ok1 = q.has_fact(b, rd.node, 'le', names_len, lambda o: q.const_def(b, o) == 'rodbus::common::frame::constants::MAX_ADU_LENGTH' or q.const_val(b, o) == 253, facts)
+    def is_max(o, v=253):
+        return q.int_value(b, o) == v
+    def fc_plus_len(o):
+        s_ = q.sem(b, o)
+        return s_.kind == 'bin' and s_.extra[1].startswith('Add') and ((q.int_value(b, s_.extra[2]) == 1 and names_len(s_.extra[3])) or (q.int_value(b, s_.extra[3]) == 1 and names_len(s_.extra[2])))
+    def bare_len(o):
+        return names_len(o) and q.sem(b, o).kind != 'bin'
+    # 1 + length <= 253, written with the sum, or as length < 253 / length <= 252
+    ok1 = any(r_ in ('le',) and fc_plus_len(a_) and is_max(b_) for (e_, r_, a_, b_) in q.facts_dominating(b, rd.node, facts)) or \
+        any(r_ == 'lt' and ((fc_plus_len(a_) and is_max(b_, 254)) or (bare_len(a_) and is_max(b_))) for (e_, r_, a_, b_) in q.facts_dominating(b, rd.node, facts)) or \
+        any(r_ == 'le' and bare_len(a_) and is_max(b_, 252) for (e_, r_, a_, b_) in q.facts_dominating(b, rd.node, facts))
     c.ob('size-bound', ok1, 'the PDU is read only if FUNCTION_CODE_LENGTH + length <= MAX_ADU_LENGTH (253)', '', rd.loc())
     ok2 = q.has_fact(b, rd.node, 'le', names_len, is_len_call, facts)
     c.ob('complete', ok2, 'the PDU is read only if cursor.len() >= FUNCTION_CODE_LENGTH + length + CRC_LENGTH', '', rd.loc())
@@ -289,3 +299,9 @@ def r8(c):
 def r9(c):
     from rules import c05
     c05.r6(c)
+
+
+@rule('C06', 'R06.10', 'the address byte the CRC is computed over is the one received: FrameDestination::value() is the unit id, and 0 for Broadcast (C17/R17.5)', needs=HAS_SERIAL)
+def r10(c):
+    from rules import c17
+    c17.r5(c)
